@@ -429,7 +429,9 @@ class T:
     # ---- statements
     def stmt(self, d):
         g = self.gen
-        c = self.n(24)
+        c = self.n(26)
+        if c >= 24:
+            c = 18 + (c - 24) * 2 if not getattr(self, 'has_fr', False) else 20
         if c <= 3:
             t = self.pick(ALLTYPES)
             self.use('stmt:assign')
@@ -481,6 +483,22 @@ class T:
             self.fns[name] = (pts, rt)
             self.use('stmt:lambda-def')
             return ('Assign', name, Lam(ps, body))
+        if c == 18:
+            self.use('stmt:recursive-lambda')
+            self.has_fr = True          # not registered in self.fns: only called with small literal arguments
+            body = self.pick([
+                ('If', Bin('<', Name('p'), Val(D(1))), Val(D(0)), Bin('+', Call('fr', [Bin('-', Name('p'), Val(D(1)))]), Name('p'))),
+                ('If', Bin('<=', Name('p'), Val(D(1))), Val(D(1)), Bin('*', Call('fr', [Bin('-', Name('p'), Val(D(1)))]), Name('p'))),
+                ('If', Bin('<', Name('p'), Val(D(2))), Name('p'), Bin('+', Call('fr', [Bin('-', Name('p'), Val(D(1)))]), Call('fr', [Bin('-', Name('p'), Val(D(2)))]))),
+            ])
+            return ('Assign', 'fr', Lam(['p'], body))
+        if c == 19:
+            self.use('stmt:none-binding')
+            return self.pick([('Assign', 'nv', NONE), Bin('==', Name('nv'), NONE), ('Assign', 'm', Call('len', [Call('list', [Name('nv'), Name('nv')], 'lit')])),
+                              Call('call1', [Lam(['n'], Name('n')), NONE]) if False else Bin('==', Call('get', [Name('dd'), Val('no-such')]), Name('nv'))])
+        if c == 20 and getattr(self, 'has_fr', False):
+            self.use('call:recursive-lambda')
+            return Call('fr', [Val(D(self.pick(['0', '1', '3', '4', '5'])))])
         if c == 13:
             m = self.n(4)
             if m == 0:
@@ -529,6 +547,7 @@ def env_strategy(draw):
         'b': bool(n(2)),
         'nn': [[dec() for _ in range(1 + n(3))] for _ in range(1 + n(3))],
         'dl': {pick(['a', 'b', 'k']): [dec() for _ in range(n(3))] for _ in range(n(3))},
+        'nv': None,
     }
 
 
